@@ -1,3 +1,4 @@
+import TinysetModel.Model.Fault
 import TinysetModel.Model.WFCheck
 import TinysetModel.Generated.Fits
 /-! Trace validator: reads the line protocol written by `/verif/harness` on stdin, re-executes
@@ -236,6 +237,26 @@ def step (s : St) (line : String) : IO St := do
   | "ins" :: i :: v :: ret :: rest =>
     let (_, ds, ir) := splitDR rest
     s.runRet "ins" (N i) (insert c uRng FUEL (s.get (N i)) (N v)) ret (toks2nats ds) ir
+  | "flt" :: i :: v :: n :: rest =>
+    -- failure states of an insert: what `*self` holds at each zeroed request (Model/Fault.lean)
+    let (_, ds, ir) := splitDR rest
+    let r0 := s.get (N i)
+    match insertT c (c.W == 64) uRng FUEL r0 (N v) (s.rs (toks2nats ds)) with
+    | .error _ => s.fail s!"flt: model error on {showR c.codec r0}"
+    | .ok ((_, tr), d) =>
+      -- the harness restores the generator state after every faulted run: do not advance the model's
+      let okd := (s.after d).2
+      let groups := (ir.foldl (fun (acc : List (List String)) t =>
+        if t == "|" then [] :: acc else match acc with | g :: r => (g ++ [t]) :: r | [] => [[t]]) [[]]).reverse
+      let groups := groups.filter (fun g => !g.isEmpty)
+      if !okd then s.fail s!"flt: model consumed fewer draws than the implementation ({showR c.codec r0})"
+      else if tr.length != N n then
+        s.fail s!"flt: insert({v}) on {showR c.codec r0}: model requests {tr.length} zeroed blocks, implementation {n}"
+      else if groups.length != tr.length then s.fail "flt: malformed line"
+      else
+        match (groups.zip tr).find? (fun (g, r) => !(irMatches c.codec (parseIR g) r)) with
+        | some (g, r) => s.fail s!"flt: insert({v}) on {showR c.codec r0}: after a failed request the set is {g.take 50}, model {showR c.codec r}"
+        | none => pure ((s.bump "op:flt").bump s!"flt:requests:{tr.length}:{layoutTag c r0}")
   | "rem" :: i :: v :: ret :: rest =>
     let (_, ds, ir) := splitDR rest
     s.runRet "rem" (N i) (remove c uRng FUEL (s.get (N i)) (N v)) ret (toks2nats ds) ir
